@@ -2,26 +2,34 @@
 """Print the sub-agent prompt for seeding a property-breaking change (only the property text is given)."""
 import json,sys
 pid=sys.argv[1]
+ids=sys.argv[2] if len(sys.argv)>2 else "ab"   # letters of the two mutations to deliver
+import os
+used=[]
+for d in sorted(os.listdir('/verif/seeded')):
+    if d.startswith(pid):
+        try: used.append(json.load(open('/verif/seeded/%s/meta.json'%d))['summary'][:260])
+        except Exception: pass
+avoid=("\nIdeas that were used already and must NOT be repeated (choose different sites and mechanisms):\n"+"\n".join(" - "+u for u in used)+"\n") if used and ids!="ab" else ""
 p=[json.loads(l) for l in open('/verif/properties.jsonl') if json.loads(l)['id']==pid][0]
 wt=f"/tmp/mut/wt_{pid}"
 out=f"/tmp/mut/out"
 print(f"""You are helping to evaluate how well a verification suite detects realistic bugs. In the directory {wt} there is a git worktree (detached HEAD) of the Go repository enbility/spine-go (an implementation of the EEBUS SPINE protocol: data model, local/remote device-entity-feature tree, read/write/notify handling, subscriptions, bindings, heartbeats).
 
 Work ONLY inside {wt} and the output directory {out}. Do not read or touch /repo, /verif or any other directory. There is no network. Use this environment in every shell call:
-export GOFLAGS=-mod=mod GOPROXY=off GOSUMDB=off GOTOOLCHAIN=local
+export GOFLAGS=-mod=mod GOPROXY=off GOSUMDB=off GOTOOLCHAIN=local GOCACHE=/tmp/mut/gocache_{pid}
 
 PROPERTY {pid} — {p['title']}
 Statement: {p['statement']}
 Quantified over: {p['quantifier']['text']}
 Code the property is anchored in: {', '.join(p['anchors']['files'])}
 
-TASK: produce TWO different, independent source changes ("mutations" a and b) to non-test Go files of the repository, each of which breaks this property while
+TASK: produce TWO different, independent source changes ("mutations" {ids[0]} and {ids[1]}) to non-test Go files of the repository, each of which breaks this property while
  (1) still compiling (`go build ./...`), and
  (2) still passing the complete existing test suite, unedited (`go test -vet=off -count=1 ./...`).
-Each must be a realistic bug a maintainer could plausibly introduce (refactoring slip, wrong comparison, comparing the wrong address part, missing or misplaced lock, off-by-one, incomplete cleanup, stale cache, wrong error path, early return ...), small (about 1-15 changed lines), and SUBTLE: it must not be exposed at once by ordinary single-step use, but need something specific to manifest - a particular interleaving, a fault at a particular point, a multi-step sequence of operations, an unusual input, or two cooperating sites that each look fine alone. The two mutations should be in different functions and of different character.
+Each must be a realistic bug a maintainer could plausibly introduce (refactoring slip, wrong comparison, comparing the wrong address part, missing or misplaced lock, off-by-one, incomplete cleanup, stale cache, wrong error path, early return ...), small (about 1-15 changed lines), and SUBTLE: it must not be exposed at once by ordinary single-step use, but need something specific to manifest - a particular interleaving, a fault at a particular point, a multi-step sequence of operations, an unusual input, or two cooperating sites that each look fine alone. The two mutations should be in different functions and of different character.{avoid}
 Do not modify files named verif_on.go / verif_off.go and do not remove or move lines calling verifPoint(...) (instrumentation; leave as is). Do not deliver a change whose only effect is a Go data race without a functional, observable consequence. The unmodified code may itself already deviate from the property in some corner; that does not matter - your mutation must introduce a NEW violation that your demonstration exposes (demo passes at HEAD, fails with the patch).
 
-DELIVER for each mutation X in {{a, b}} the directory {out}/{pid}X/ containing:
+DELIVER for each mutation X in {{{ids[0]}, {ids[1]}}} the directory {out}/{pid}X/ containing:
  - patch.diff : output of `git diff` (against HEAD) of the change; non-test files only.
  - demo_test.go : a Go test file that FAILS with the mutation applied and PASSES on unmodified HEAD. First line must be a comment saying where it has to be placed, e.g. `// place in: spine/`. It must be deterministic - no flaky timing; if an interleaving is needed force it (channels, sync, the exported hook of verif_on.go under -tags verif if you want) or make it certain. Use package spine (internal test) or an external test package, whatever is convenient; it may use the mocks package and testify as the existing tests do.
  - meta.json : {{"property": "{pid}", "summary": "<what the change does>", "needs": "<what is needed for the violation to manifest>", "files": ["..."], "demo_place": "spine/", "demo_run": "go test -vet=off -count=1 -run '<TestName>' ./spine/"}}
